@@ -54,6 +54,7 @@ class P:
         self.i = 0
         self.decls = []
         self.impls = []
+        self.trait_impls = []
 
     def peek(self, k=0):
         j = self.i + k
@@ -289,10 +290,66 @@ class P:
         if m and (unsafe or m.group(1) == "!"):
             self.impls.append({"path": path, "negative": m.group(1) == "!", "trait": m.group(2),
                                "for": m.group(3).strip(), "text": text})
+        ti = trait_impl_head(text)
+        if ti:
+            self.trait_impls.append({"path": path, "trait": ti[0], "self": ti[1]})
         if self.peek() == "{":
             self.skip_balanced("{", "}")
         elif self.peek() == ";":
             self.next()
+
+
+def trait_impl_head(text):
+    """`< G > a :: Trait < A > for b :: Name < G > where …` -> ("Trait", "Name"); None for inherent impls
+    and for impls on tuples / arrays / references / Vec-like foreign types (their last segment is returned as is)."""
+    toks = text.split()
+    # skip the impl's own generics
+    i = 0
+    if toks and toks[0] == "<":
+        depth = 0
+        while i < len(toks):
+            if toks[i] == "<":
+                depth += 1
+            elif toks[i] == ">":
+                depth -= 1
+                if depth == 0:
+                    i += 1
+                    break
+            i += 1
+    rest = toks[i:]
+    # the `for` that separates trait and self type: at angle-bracket depth 0 and not a `for < 'a >` binder
+    depth = 0
+    split = None
+    for j, t in enumerate(rest):
+        if t == "<":
+            depth += 1
+        elif t == ">":
+            depth -= 1
+        elif t == "for" and depth == 0 and not (j + 1 < len(rest) and rest[j + 1] == "<"):
+            split = j
+            break
+    if split is None:
+        return None
+
+    def last_segment(ts):
+        name = None
+        for t in ts:
+            if t in ("<", "where", "{"):
+                break
+            if re.match(r"^[A-Za-z_][A-Za-z0-9_]*$", t) and t not in ("dyn", "mut", "const", "unsafe", "crate", "self", "super"):
+                name = t
+            elif t in ("!", "?"):
+                continue
+            elif t != "::":
+                if name is None:
+                    return None
+                break
+        return name
+    tr = last_segment(rest[:split])
+    slf = last_segment(rest[split + 1:])
+    if tr is None or slf is None:
+        return None
+    return tr, slf
 
 
 # ------------------------------------------------------------------ types
@@ -483,7 +540,7 @@ def main():
     toks = tokenize(src)
     p = P(toks)
     p.items([])
-    json.dump({"features": features, "decls": p.decls, "impls": p.impls}, open(out, "w"), indent=1)
+    json.dump({"features": features, "decls": p.decls, "impls": p.impls, "trait_impls": p.trait_impls}, open(out, "w"), indent=1)
     sys.stderr.write(f"{len(p.decls)} declarations, {len(p.impls)} Send/Sync impls\n")
 
 
